@@ -360,6 +360,29 @@ def eval_reuse(ctx, case):
                 v['key'] = 'stale-state:' + v['key']
                 v['what'] = 'after model[...] = value on a reused model (step %d %s): ' % (i + 1, sorted(step)) + v['what']
             return
+    # last step: the opacity tables registered in the cache are REPLACED (same molecules, other numbers; what reloading
+    # opacities or changing the opacity path does); the re-used model must integrate the tables that are registered now
+    if spec.get('opacities'):
+        f = np.array([2.5, 0.3, 4.0, 0.6])
+        spec2 = dict(spec, opacities=[dict(o, xsec=np.asarray(o['xsec'], float) * f[i % 4])
+                                      for i, o in enumerate(spec['opacities'])])
+        try:
+            FM.spec_install(spec2)
+            obs = observe(m)
+            fresh = observe(FM.build_model(spec2))
+        except Exception as e:
+            if _invalid_params(ctx, e):
+                return
+            ctx.violation('raises-after-table-swap:' + type(e).__name__,
+                          'model() raised %r after the registered opacity tables were replaced' % (e,), case)
+            return
+        ctx.bucket('reuse:opacity-tables-replaced')
+        ctx.disagreements_checked += 1
+        if obs[1].shape != fresh[1].shape or not C.close(obs[1], fresh[1], rel=1e-9):
+            ctx.violation('stale-state:opacity-tables-replaced',
+                          'after the opacity tables in the cache were replaced, a re-used model object does not return the '
+                          'transit depth of a model freshly built on the tables registered now', dict(case, swapped=True),
+                          dict(reused=obs[1], fresh=fresh[1]))
 
 
 def judge(ctx, case, spec, m, obs, do_scale, stream):
